@@ -18,11 +18,12 @@ pub enum Tier {
 pub struct World {
     pub schema: Schema,
     pub gens: Vec<GenType>,
+    pub pcorpus: crate::pcorpus_def::PCorpus,
 }
 
 impl World {
     pub fn new() -> Self {
-        World { schema: Schema::new(), gens: crate::legs::gen_types() }
+        World { schema: Schema::new(), gens: crate::legs::gen_types(), pcorpus: crate::pcorpus_def::pcorpus() }
     }
 }
 
@@ -422,6 +423,7 @@ const TYPE_CODES: [u8; 20] = [0, 1, 2, 3, 4, 5, 6, 7, 8, 9, 10, 11, 12, 13, 14, 
 pub fn enumerate_faults(r: &mut Rng, b: &Base, tier: Tier, want_all_truncations: bool) -> Vec<Faulted> {
     let mut v = vec![];
     let len = b.bytes.len();
+    let is_pb = matches!(b.level, Level::Pb(_));
     let structish = b.conforming && (matches!(b.level, Level::Gen(_)) || matches!(b.level, Level::Prim(T_STRUCT)));
     // truncation at every offset (strict prefixes)
     if want_all_truncations || len <= 64 {
@@ -474,7 +476,7 @@ pub fn enumerate_faults(r: &mut Rng, b: &Base, tier: Tier, want_all_truncations:
                 for val in vals {
                     let kind = if sp.kind == SpanKind::Len { "len_overwrite" } else { "count_overwrite" };
                     v.push(Faulted {
-                        bytes: overwrite_span(b.proto, &b.bytes, &sp, val),
+                        bytes: if is_pb { pb_overwrite_len(&b.bytes, &sp, val) } else { overwrite_span(b.proto, &b.bytes, &sp, val) },
                         desc: format!("overwrite {:?}@{}..{}={}", sp.kind, sp.start, sp.end, val),
                         kind,
                         strict_prefix: false,
@@ -482,11 +484,20 @@ pub fn enumerate_faults(r: &mut Rng, b: &Base, tier: Tier, want_all_truncations:
                 }
             }
             SpanKind::Type | SpanKind::FieldHdr => {
-                let codes: Vec<u8> = if tier == Tier::Thorough { TYPE_CODES.to_vec() } else { (0..4).map(|_| *r.pick(&TYPE_CODES)).collect() };
+                let codes: Vec<u8> = if is_pb {
+                    (0u8..8).collect()
+                } else if tier == Tier::Thorough {
+                    TYPE_CODES.to_vec()
+                } else {
+                    (0..4).map(|_| *r.pick(&TYPE_CODES)).collect()
+                };
                 for code in codes {
                     let mut x = b.bytes.clone();
                     // keep the other nibble in compact headers
-                    if b.proto == Proto::Compact {
+                    if is_pb {
+                        // protobuf key: wire type in the low three bits of the first byte
+                        x[sp.start] = (x[sp.start] & !7) | (code & 7);
+                    } else if b.proto == Proto::Compact {
                         x[sp.start] = (x[sp.start] & 0xF0) | (code & 0x0F);
                     } else {
                         x[sp.start] = code;
@@ -529,6 +540,15 @@ pub fn enumerate_faults(r: &mut Rng, b: &Base, tier: Tier, want_all_truncations:
         }
     }
     v
+}
+
+/// Replace a protobuf length prefix (varint) by `val` (as u64: negatives become ten-byte varints).
+fn pb_overwrite_len(bytes: &[u8], sp: &Span, val: i64) -> Vec<u8> {
+    let mut out = Vec::with_capacity(bytes.len() + 10);
+    out.extend_from_slice(&bytes[..sp.start]);
+    put_uvarint(&mut out, val as u64);
+    out.extend_from_slice(&bytes[sp.end..]);
+    out
 }
 
 fn random_bytes_cases(r: &mut Rng) -> Vec<Faulted> {
@@ -678,12 +698,320 @@ pub fn unit_c19(w: &World, seed: u64, unit: u64, tier: Tier) -> Vec<Case> {
     out
 }
 
+// ------------------------------------------------------------------- C10
+
+fn chunk_plan(r: &mut Rng, len: usize) -> Schedule {
+    // schedule events are reused as the chunk plan of SimBuf
+    match r.below(5) {
+        0 => Schedule { evs: vec![], tail: 1, io_error: None },
+        1 => Schedule { evs: vec![], tail: 2, io_error: None },
+        2 => Schedule { evs: vec![], tail: *r.pick(&[3u32, 5, 7, 9, 11]), io_error: None },
+        _ => {
+            let mut evs = vec![];
+            let mut covered = 0usize;
+            while covered < len && evs.len() < 256 {
+                let n = *r.pick(&[1u64, 1, 1, 2, 3, 4, 5, 8, 9, 10, 11, 17, 64]) as usize;
+                evs.push(crate::stream::Ev::Deliver(n as u32));
+                covered += n;
+            }
+            Schedule { evs, tail: 0, io_error: None }
+        }
+    }
+}
+
+fn pb_codec_value(r: &mut Rng, w: &World, codec: &str) -> (Vec<u8>, Vec<Span>, u8) {
+    use crate::pwire::*;
+    let mut e = PEnc::new();
+    let knobs = PKnobs::swarm(r);
+    let wt: u8;
+    match codec {
+        "bool" | "int32" | "int64" | "uint32" | "uint64" | "sint32" | "sint64" | "enum_i32" | "varint" | "key" | "length_delimiter" => {
+            wt = 0;
+            let v = match r.below(4) {
+                0 => r.next(),
+                1 => r.below(300),
+                2 => u64::MAX,
+                _ => r.next() >> r.below(64),
+            };
+            put_uvarint(&mut e.out, v);
+            if r.chance(1, 10) {
+                // over-long varint
+                e.out = vec![0xff; 11];
+            }
+        }
+        "float" | "fixed32" | "sfixed32" => {
+            wt = 5;
+            e.out.extend_from_slice(&(r.next() as u32).to_le_bytes());
+        }
+        "double" | "fixed64" | "sfixed64" => {
+            wt = 1;
+            e.out.extend_from_slice(&r.next().to_le_bytes());
+        }
+        "string" | "faststr" | "bytes" | "bytes_vec" => {
+            wt = 2;
+            let n = *r.pick(&[0usize, 1, 5, 127, 128, 1000]);
+            let body: Vec<u8> = if codec.starts_with("bytes") || r.chance(1, 8) { r.bytes(n) } else { (0..n).map(|_| b'a' + r.below(26) as u8).collect() };
+            e.len_prefixed(&body, true);
+        }
+        "message" | "hash_map_str_node" | "btree_map_str_msg" | "hash_map_i32_str" => {
+            wt = 2;
+            let mut sub = PEnc::new();
+            let mut g = PGen { r, k: knobs, corpus: &w.pcorpus, budget: 300 };
+            match codec {
+                "message" => {
+                    let which = if g.r.chance(1, 2) { "Envelope" } else { "Node" };
+                    g.message(&mut sub, which, 1)
+                }
+                "hash_map_i32_str" => {
+                    g.scalar_pub(&mut sub, 1, &crate::pcorpus_def::PK::Int32);
+                    g.scalar_pub(&mut sub, 2, &crate::pcorpus_def::PK::String);
+                }
+                "btree_map_str_msg" => {
+                    g.scalar_pub(&mut sub, 1, &crate::pcorpus_def::PK::String);
+                    sub.key(2, 2);
+                    let mut m = PEnc::new();
+                    g.message(&mut m, "Small", 1);
+                    sub.nested(m);
+                }
+                _ => {
+                    g.scalar_pub(&mut sub, 1, &crate::pcorpus_def::PK::String);
+                    sub.key(2, 2);
+                    let mut m = PEnc::new();
+                    g.message(&mut m, "Node", 1);
+                    sub.nested(m);
+                }
+            }
+            e.nested(sub);
+        }
+        "group" | "skip" => {
+            wt = 3;
+            // body of a group with tag 3: some fields then the end key
+            let mut g = PGen { r, k: knobs, corpus: &w.pcorpus, budget: 300 };
+            let n = g.r.below(4);
+            for _ in 0..n {
+                match g.r.below(4) {
+                    0 => g.scalar_pub(&mut e, 1, &crate::pcorpus_def::PK::Int32),
+                    1 => g.scalar_pub(&mut e, 2, &crate::pcorpus_def::PK::String),
+                    2 => {
+                        e.key(3, 3);
+                        g.scalar_pub(&mut e, 1, &crate::pcorpus_def::PK::Int32);
+                        e.key(3, 4);
+                    }
+                    _ => g.unknown_field(&mut e, 1),
+                }
+            }
+            e.key(3, 4);
+        }
+        _ => {
+            wt = 0;
+        }
+    }
+    (e.out, e.spans, wt)
+}
+
+pub fn unit_c10(w: &World, seed: u64, unit: u64, tier: Tier) -> Vec<Case> {
+    use crate::pwire::*;
+    let prop = "C10";
+    let mut r = Rng::derive(seed, &[prop_tag(prop), unit]);
+    let mut out: Vec<Case> = vec![];
+    let flavour = r.below(20);
+    let mk = |level: String, note: String| -> Case {
+        Case {
+            prop: prop.to_string(),
+            proto: Proto::Binary,
+            level: Level::Pb(level),
+            bytes: vec![],
+            valid_len: None,
+            expect_refused: None,
+            strict_prefix: false,
+            expect: None,
+            sched: Schedule::whole(),
+            run_mem: true,
+            run_stream: false,
+            fault: String::new(),
+            fault_kind: "none".into(),
+            note,
+            unit,
+            idx: 0,
+        }
+    };
+    // every input goes through the contiguous leg and the fragmented leg
+    let mut push_both = |out: &mut Vec<Case>, r: &mut Rng, mut c: Case| {
+        c.run_mem = true;
+        c.run_stream = false;
+        c.sched = Schedule::whole();
+        out.push(c.clone());
+        c.run_mem = false;
+        c.run_stream = true;
+        c.sched = chunk_plan(r, c.bytes.len());
+        out.push(c);
+    };
+    if flavour < 2 {
+        // nesting: messages, repeated messages, map entries, groups (known and unknown)
+        let depths: Vec<usize> = if tier == Tier::Thorough { vec![1, 50, 90, 99, 100, 101, 110, 150, 300, 1000, 20_000] } else { vec![50, 90, 110, 300, 5_000] };
+        for d in depths {
+            let d = if d <= 300 { (d + r.below(7) as usize).max(1) } else { d };
+            let refused = if d >= 110 { Some(true) } else { None };
+            let variants: Vec<(String, Vec<u8>)> = vec![
+                ("pbgen:Node".into(), nest_messages(1, d)),
+                ("pbgen:Node".into(), nest_messages(2, d)),
+                ("pbgenld:Node".into(), {
+                    let b = nest_messages(1, d);
+                    let mut o = vec![];
+                    put_uvarint(&mut o, b.len() as u64);
+                    o.extend_from_slice(&b);
+                    o
+                }),
+                ("pbgen:Node".into(), nest_maps(d.min(3000))),
+                ("pbgen:Node".into(), nest_groups(100, d)),
+                ("pbgen:Small".into(), nest_groups(7, d)),
+                ("pbgen:GroupMsg".into(), nest_groups(3, d)),
+                ("pbcodec:skip:3:s".into(), {
+                    let mut b = nest_groups(3, d);
+                    // the outer start key is the one the caller has consumed
+                    if !b.is_empty() {
+                        b.remove(0);
+                    }
+                    b
+                }),
+                ("pbcodec:message:2:s".into(), {
+                    let b = nest_messages(4, d); // Envelope.f4 is Node; then Node.f1...
+                    let _ = b;
+                    let inner = nest_messages(1, d);
+                    let mut body = vec![];
+                    put_uvarint(&mut body, (4 << 3) | 2);
+                    put_uvarint(&mut body, inner.len() as u64);
+                    body.extend_from_slice(&inner);
+                    let mut o = vec![];
+                    put_uvarint(&mut o, body.len() as u64);
+                    o.extend_from_slice(&body);
+                    o
+                }),
+            ];
+            for (lv, bytes) in variants {
+                let mut c = mk(lv, format!("nest{}", d));
+                c.bytes = bytes;
+                c.expect_refused = refused;
+                c.fault = format!("nest{}", d);
+                c.fault_kind = if refused.is_some() { "nesting_over_limit".into() } else { "nesting_under_limit".into() };
+                push_both(&mut out, &mut r, c);
+            }
+        }
+    } else if flavour < 6 {
+        // runtime field codecs
+        let codec = *r.pick(&CODECS);
+        let (bytes, spans, wt) = pb_codec_value(&mut r, w, codec);
+        let rep = if r.chance(1, 2) { "r" } else { "s" };
+        let base = Base { proto: Proto::Binary, level: Level::Pb(format!("pbcodec:{}:{}:{}", codec, wt, rep)), bytes: bytes.clone(), spans, note: format!("{}[{}]", codec, bytes.len()), tv: None, conforming: false };
+        let mut faults = enumerate_faults(&mut r, &base, tier, true);
+        faults.push(Faulted { bytes: bytes.clone(), desc: "none".into(), kind: "none", strict_prefix: false });
+        // every wire type against this codec
+        for other in 0u8..6 {
+            if other != wt {
+                faults.push(Faulted { bytes: bytes.clone(), desc: format!("wire_type={}", other), kind: "wire_type_mismatch", strict_prefix: false });
+            }
+        }
+        for f in faults {
+            let lvname = if f.kind == "wire_type_mismatch" {
+                let o: u8 = f.desc.trim_start_matches("wire_type=").parse().unwrap_or(0);
+                format!("pbcodec:{}:{}:{}", codec, o, rep)
+            } else {
+                format!("pbcodec:{}:{}:{}", codec, wt, rep)
+            };
+            let mut c = mk(lvname, base.note.clone());
+            // a length prefix beyond the remaining input must be rejected before anything is copied
+            if f.kind == "len_overwrite" && matches!(codec, "string" | "faststr" | "bytes" | "bytes_vec") && wt == 2 {
+                if let Some(v) = f.desc.rsplit('=').next().and_then(|x| x.parse::<i64>().ok()) {
+                    let rem = bytes.len() as i64 - 1; // the prefix of these values is one or two bytes; be conservative
+                    if (v as u32 as i64) > rem + 1 {
+                        c.expect = Some("underflow".into());
+                    }
+                }
+            }
+            c.bytes = f.bytes;
+            c.fault = f.desc;
+            c.fault_kind = f.kind.into();
+            push_both(&mut out, &mut r, c);
+        }
+    } else if flavour < 8 {
+        // well-known wrapper impls and random bytes against every entry point
+        let wname = *r.pick(&WRAPPERS);
+        for _ in 0..24 {
+            let mut e = PEnc::new();
+            let knobs = PKnobs::swarm(&mut r);
+            let mut g = PGen { r: &mut r, k: knobs, corpus: &w.pcorpus, budget: 300 };
+            let kind = match wname {
+                "bool" => crate::pcorpus_def::PK::Bool,
+                "u32" => crate::pcorpus_def::PK::Uint32,
+                "u64" => crate::pcorpus_def::PK::Uint64,
+                "i32" => crate::pcorpus_def::PK::Int32,
+                "i64" => crate::pcorpus_def::PK::Int64,
+                "f32" => crate::pcorpus_def::PK::Float,
+                "f64" => crate::pcorpus_def::PK::Double,
+                "String" => crate::pcorpus_def::PK::String,
+                _ => crate::pcorpus_def::PK::Bytes,
+            };
+            let n = g.r.below(3);
+            for _ in 0..n {
+                g.scalar_pub(&mut e, 1, &kind);
+            }
+            if g.r.chance(1, 2) {
+                g.unknown_field(&mut e, 1);
+            }
+            let base = Base { proto: Proto::Binary, level: Level::Pb(format!("pbwrap:{}", wname)), bytes: e.out.clone(), spans: e.spans, note: format!("wrap {}", wname), tv: None, conforming: false };
+            let mut faults = enumerate_faults(&mut r, &base, Tier::Quick, true);
+            faults.extend(random_bytes_cases(&mut r));
+            faults.push(Faulted { bytes: e.out.clone(), desc: "none".into(), kind: "none", strict_prefix: false });
+            for f in faults {
+                let mut c = mk(format!("pbwrap:{}", wname), base.note.clone());
+                c.bytes = f.bytes;
+                c.fault = f.desc;
+                c.fault_kind = f.kind.into();
+                push_both(&mut out, &mut r, c);
+            }
+        }
+    } else {
+        // generated messages
+        let name = *r.pick(&["AllScalars", "Small", "Maps", "Choice", "Node", "Peer", "Envelope", "Envelope"]);
+        let mut e = PEnc::new();
+        let knobs = PKnobs::swarm(&mut r);
+        {
+            let mut g = PGen { r: &mut r, k: knobs, corpus: &w.pcorpus, budget: 300 };
+            g.message(&mut e, name, 1);
+        }
+        let ld = r.chance(1, 4);
+        let (bytes, spans, lvname) = if ld {
+            let mut o = PEnc::new();
+            o.nested(e);
+            (o.out, o.spans, format!("pbgenld:{}", name))
+        } else {
+            (e.out, e.spans, format!("pbgen:{}", name))
+        };
+        let base = Base { proto: Proto::Binary, level: Level::Pb(lvname.clone()), bytes: bytes.clone(), spans, note: format!("{}[{}]", name, bytes.len()), tv: None, conforming: false };
+        let mut faults = enumerate_faults(&mut r, &base, tier, true);
+        faults.extend(random_bytes_cases(&mut r));
+        faults.push(Faulted { bytes: bytes.clone(), desc: "none".into(), kind: "none", strict_prefix: false });
+        for f in faults {
+            let mut c = mk(lvname.clone(), base.note.clone());
+            c.bytes = f.bytes;
+            c.fault = f.desc;
+            c.fault_kind = f.kind.into();
+            push_both(&mut out, &mut r, c);
+        }
+    }
+    for (i, c) in out.iter_mut().enumerate() {
+        c.idx = i as u64;
+    }
+    out
+}
+
 pub fn unit_cases(w: &World, prop: &str, seed: u64, unit: u64, tier: Tier) -> Vec<Case> {
     match prop {
         "C12" => unit_c12(w, seed, unit, tier),
         "C07" => unit_c07(w, seed, unit, tier),
         "C09" => unit_c09(w, seed, unit, tier),
         "C19" => unit_c19(w, seed, unit, tier),
+        "C10" => unit_c10(w, seed, unit, tier),
         _ => vec![],
     }
 }
